@@ -262,3 +262,83 @@ func abandon(prop, oracle string, c any, v *Violation) {
 	fmt.Printf("VIOLATION property=%s replay=%s\nkind=%s\n%s\n", prop, path, v.Kind, v.Msg)
 	os.Exit(1)
 }
+
+// Shrinker proposes smaller variants of a failing case (property-specific,
+// structural: drop a directive, a booking, a flag). The driver runs
+// TestMinimise on each replay file after the rapid run: greedy descent that
+// keeps a candidate when it still violates the property with the same kind.
+type shrinkFn func(raw json.RawMessage) ([]json.RawMessage, error)
+
+var shrinkers = map[string]shrinkFn{}
+
+func RegisterShrinker[C any](prop, oracle string, cands func(C) []C) {
+	shrinkers[prop+"/"+oracle] = func(raw json.RawMessage) ([]json.RawMessage, error) {
+		var c C
+		if err := json.Unmarshal(raw, &c); err != nil {
+			return nil, err
+		}
+		var out []json.RawMessage
+		for _, x := range cands(c) {
+			b, err := json.Marshal(x)
+			if err != nil {
+				return nil, err
+			}
+			out = append(out, b)
+		}
+		return out, nil
+	}
+}
+
+// Minimise performs the greedy descent on a replay file and rewrites it.
+func Minimise(path string, budget int) (string, error) {
+	b, err := os.ReadFile(path)
+	if err != nil {
+		return "", err
+	}
+	var rf ReplayFile
+	if err := json.Unmarshal(b, &rf); err != nil {
+		return "", err
+	}
+	key := rf.Property + "/" + rf.Oracle
+	sh, ok := shrinkers[key]
+	rp, ok2 := replayers[key]
+	if !ok || !ok2 {
+		return "no shrinker", nil
+	}
+	v0, err := rp(rf.Case)
+	if err != nil || v0 == nil {
+		return "not reproducible, left as is", err
+	}
+	cur, curV := rf.Case, v0
+	evals, steps := 0, 0
+	for progress := true; progress && evals < budget; {
+		progress = false
+		cands, err := sh(cur)
+		if err != nil {
+			return "", err
+		}
+		for _, cand := range cands {
+			if evals >= budget {
+				break
+			}
+			evals++
+			v, err := rp(cand)
+			if err != nil || v == nil || v.Kind != curV.Kind {
+				continue
+			}
+			if len(cand) >= len(cur) {
+				continue
+			}
+			cur, curV, progress = cand, v, true
+			steps++
+			break
+		}
+	}
+	rf.Case, rf.Violation = cur, curV
+	rf.Note = fmt.Sprintf("minimised structurally after rapid's shrink: %d steps, %d evaluations", steps, evals)
+	out, _ := json.MarshalIndent(rf, "", " ")
+	if err := os.WriteFile(path, out, 0o644); err != nil {
+		return "", err
+	}
+	return rf.Note, nil
+}
